@@ -41,6 +41,7 @@ type Clause struct {
 }
 
 type LoopSpec struct {
+	EntryHints []*Clause // proved when the loop is reached and then available to the invariant-on-entry obligations only
 	Invariants []*Clause
 	Decreases  *Clause
 }
@@ -410,7 +411,7 @@ var funcHdrRe = regexp.MustCompile(`^(extern\s+)?func\s+(?:\(\s*\*?\s*([A-Za-z0-
 var predHdrRe = regexp.MustCompile(`^pred\s+([A-Za-z0-9_]+)\s*\((.*?)\)\s*:=\s*(.*)$`)
 var lemmaHdrRe = regexp.MustCompile(`^(lemma|axiom)\s+([A-Za-z0-9_]+)\s*\((.*)\)\s*$`)
 var bindingRe = regexp.MustCompile(`^binding\s+([A-Za-z0-9_]+)\s*\(\s*([A-Za-z0-9_.]+)\s*\)\s*$`)
-var loopRe = regexp.MustCompile(`^loop\s+([0-9]+)\s*:\s*(invariant|decreases)\s+(.*)$`)
+var loopRe = regexp.MustCompile(`^loop\s+([0-9]+)\s*:\s*(invariant|decreases|entry-hint)\s+(.*)$`)
 
 var clauseKeywords = map[string]bool{"func": true, "extern": true, "pred": true, "lemma": true, "axiom": true, "requires": true, "ensures": true,
 	"assigns": true, "pure": true, "wrapping": true, "trusted": true, "inline": true, "props": true, "loop": true, "let": true,
@@ -680,6 +681,8 @@ func parseContractFile(path string, pkgPath string) (*ContractFile, error) {
 			}
 			if m[2] == "invariant" {
 				ls.Invariants = append(ls.Invariants, c)
+			} else if m[2] == "entry-hint" {
+				ls.EntryHints = append(ls.EntryHints, c)
 			} else {
 				ls.Decreases = c
 			}
